@@ -109,7 +109,7 @@ structure Engines (E : Type) where
   /-- `ptn.FormatTPS` -/
   formatTPS : Pos → Except Err Bytes
 
-/-! ### printing -/
+/-! ### what is printed -/
 
 def str (b : Bytes) : String := String.ofList (b.map fun x => Char.ofNat x.toNat)
 
@@ -143,20 +143,64 @@ def moveOrNone (env : PTN.Env) : Option Move → String
 def resultWord : Tak.PN.Eval → String
   | .proven => "WIN" | .disproven => "DRAW|LOSE" | .unknown => "UNKNOWN"
 
-/-- printed lines so far, and how the run went on -/
-abbrev Out (α : Type) := List String × Except Stop α
+/-- one thing the command prints.  The solver and search reports carry the position they are about (`p`), which is
+only visible in the output when board diagrams are on. -/
+inductive Item where
+  /-- `cli.RenderBoard(nil, os.Stdout, p)` -/
+  | board (p : Pos)
+  /-- ` Val=%d` of `-evaluate` (from White's point of view) -/
+  | evalLine (p : Pos) (val : Int)
+  /-- `AI analysis:`, one ` pv=` line per best line, ` value=%d` -/
+  | analysis (p : Pos) (pvs : List (List Move)) (val : Int)
+  /-- `[TPS "…"]` -/
+  | tps (text : Bytes)
+  /-- `Resulting position:` and its diagram -/
+  | resulting (q : Pos)
+  /-- `PN search analysis:` and the ` value=… move=… searched=… proof=… disproof=… depth=… maxDepth=…` line of `-prove` -/
+  | pnResult (p : Pos) (out : Tak.PN.Result Move) (stats : Tak.PN.Stats)
+  /-- `PN search analysis:`, ` value=… move=…` and the statistics line of `-dfpn` (`att` = the configured attacker) -/
+  | dfpnResult (p : Pos) (att : Color) (out : Tak.DFPN.Result Move) (stats : Tak.DFPN.Stats)
+  /-- `%d. %s` / `%d. ... %s` of `-all` -/
+  | plyLabel (num : Int) (black : Bool) (m : Move)
+
+/-- the printed lines of an item (white space normalised, wall-clock fields dropped) -/
+def Item.render (env : PTN.Env) : Item → List String
+  | .board p => renderBoard p
+  | .evalLine _ val => [s!"Val={val}"]
+  | .analysis _ pvs val =>
+    ["AI analysis:"] ++
+    pvs.map (fun pv => if pv.isEmpty then "pv=" else "pv=" ++ " ".intercalate (pv.map (fmtMoveS env))) ++
+    [s!"value={val}"]
+  | .tps t => [s!"[TPS \"{str t}\"]"]
+  | .resulting q => ["Resulting position:"] ++ renderBoard q
+  | .pnResult _ out stats =>
+    ["PN search analysis:",
+     "value=" ++ resultWord out.result ++
+       s!" move={moveOrNone env out.move} searched={stats.nodes} proof={out.proof} disproof={out.disproof} depth={out.depth} maxDepth={stats.maxDepth}"]
+  | .dfpnResult _ _ out stats =>
+    ["PN search analysis:",
+     "value=" ++ resultWord out.result ++ s!" move={moveOrNone env out.move}",
+     s!"work={stats.work} terminal={stats.terminal} solved={stats.solved} repetition={stats.repetition} hit={stats.hits}/{stats.hits + stats.miss}"]
+  | .plyLabel num black m => [if black then s!"{num}. ... {fmtMoveS env m}" else s!"{num}. {fmtMoveS env m}"]
+
+/-- what was printed so far, and how the run went on -/
+abbrev Out (α : Type) := List Item × Except Stop α
 
 def Out.bind {α β : Type} (x : Out α) (f : α → Out β) : Out β :=
   match x with
   | (l, .error s) => (l, .error s)
   | (l, .ok a) => let r := f a; (l ++ r.1, r.2)
 
-def emit (ls : List String) : Out Unit := (ls, .ok ())
+def emit (ls : List Item) : Out Unit := (ls, .ok ())
 def stop {α : Type} (s : Stop) : Out α := ([], .error s)
+def done {α : Type} (a : α) : Out α := ([], .ok a)
 def lift {α : Type} (r : Except Err α) : Out α :=
   match r with
   | .ok a => ([], .ok a)
   | .error e => ([], .error (match e with | .illegal w => Stop.panic ("unexpected error: " ++ w) | e => Stop.ofErr e))
+
+/-- every printed line of a run -/
+def Out.lines {α : Type} (env : PTN.Env) (o : Out α) : List String := o.1.flatMap (Item.render env)
 
 /-! ### the analyzers -/
 
@@ -175,36 +219,35 @@ def replayPV (basis : Array W) : List Move → Pos → Option Pos
     | .ok n => replayPV basis ms n
     | .error _ => none
 
+/-- the board diagram both solver analyzers and the minimax one start with -/
+def showBoard (f : Flags) (p : Pos) : Out Unit := if f.quiet then emit [] else emit [.board p]
+
 /-- `(*minimaxAnalysis).Analyze` -/
 def minimaxAnalyze {E : Type} (env : PTN.Env) (eng : Engines E) (f : Flags) (ai : E) (p : Pos) : Out E :=
-  Out.bind (if f.quiet then emit [] else if f.explain then stop (.unmodelled "-explain") else emit (renderBoard p)) fun _ =>
+  Out.bind (if !f.quiet && f.explain then stop (.unmodelled "-explain") else showBoard f p) fun _ =>
   if f.eval then
     Out.bind (lift (eng.evaluate ai p)) fun val =>
-    let val := if p.toMove == .black then -val else val
-    Out.bind (emit [s!"Val={val}"]) fun _ => ([], .ok ai)
+    Out.bind (emit [.evalLine p (if p.toMove == .black then -val else val)]) fun _ => done ai
   else
-    Out.bind (lift (eng.analyzeAll (minimaxCfg f) ai p)) fun ((pvs, val), ai) =>
-    Out.bind (emit (["AI analysis:"] ++
-        pvs.map (fun pv => if pv.isEmpty then "pv=" else "pv=" ++ " ".intercalate (pv.map (fmtMoveS env))) ++
-        [s!"value={val}"])) fun _ =>
-    Out.bind (if f.tps then Out.bind (lift (eng.formatTPS p)) fun t => emit [s!"[TPS \"{str t}\"]"] else emit []) fun _ =>
-    match pvs with
-    | [] => ([], .ok ai)
+    Out.bind (lift (eng.analyzeAll (minimaxCfg f) ai p)) fun r =>
+    Out.bind (emit [.analysis p r.1.1 r.1.2]) fun _ =>
+    Out.bind (if f.tps then Out.bind (lift (eng.formatTPS p)) fun t => emit [.tps t] else emit []) fun _ =>
+    match r.1.1 with
+    | [] => done r.2
     | pv0 :: _ =>
-      if f.quiet then ([], .ok ai) else
+      if f.quiet then done r.2 else
       match replayPV env.basis pv0 p with
       | none =>
-        if val < Facts.winThreshold && val > -Facts.winThreshold then stop (.fatal "illegal move in non-terminal pv!")
-        else ([], .ok ai)
-      | some q => Out.bind (emit (["Resulting position:"] ++ renderBoard q)) fun _ => ([], .ok ai)
+        if r.1.2 < Facts.winThreshold && r.1.2 > -Facts.winThreshold then stop (.fatal "illegal move in non-terminal pv!")
+        else done r.2
+      | some q => Out.bind (emit [.resulting q]) fun _ => done r.2
 
 /-- `(*pnAnalysis).Analyze` -/
-def pnAnalyze {E : Type} (env : PTN.Env) (eng : Engines E) (f : Flags) (p : Pos) : Out Unit :=
-  Out.bind (if f.quiet then emit [] else emit (renderBoard p)) fun _ =>
-  Out.bind (lift (eng.pn (pnCfg f) p)) fun (out, stats) =>
-  Out.bind (emit ["PN search analysis:",
-    s!"value={resultWord out.result} move={moveOrNone env out.move} searched={stats.nodes} proof={out.proof} disproof={out.disproof} depth={out.depth} maxDepth={stats.maxDepth}"]) fun _ =>
-  if f.dumpTree.isEmpty then ([], .ok ()) else stop (.unmodelled "-dump-tree")
+def pnAnalyze {E : Type} (eng : Engines E) (f : Flags) (p : Pos) : Out Unit :=
+  Out.bind (showBoard f p) fun _ =>
+  Out.bind (lift (eng.pn (pnCfg f) p)) fun r =>
+  Out.bind (emit [.pnResult p r.1 r.2]) fun _ =>
+  if f.dumpTree.isEmpty then done () else stop (.unmodelled "-dump-tree")
 
 /-- the `-attacker` switch of `dfpnAnalysis.Analyze` -/
 def parseAttacker (a : Bytes) : Option Color :=
@@ -214,31 +257,29 @@ def parseAttacker (a : Bytes) : Option Color :=
   else none
 
 /-- `(*dfpnAnalysis).Analyze` -/
-def dfpnAnalyze {E : Type} (env : PTN.Env) (eng : Engines E) (f : Flags) (p : Pos) : Out Unit :=
+def dfpnAnalyze {E : Type} (eng : Engines E) (f : Flags) (p : Pos) : Out Unit :=
   match parseAttacker f.attacker with
   | none => stop (.fatal "Cannot parse attacker")
   | some attacker =>
-    Out.bind (if f.quiet then emit [] else emit (renderBoard p)) fun _ =>
-    Out.bind (lift (eng.dfpn attacker (dfpnEntries f.tableMem) p)) fun (out, stats) =>
-    emit ["PN search analysis:",
-      s!"value={resultWord out.result} move={moveOrNone env out.move}",
-      s!"work={stats.work} terminal={stats.terminal} solved={stats.solved} repetition={stats.repetition} hit={stats.hits}/{stats.hits + stats.miss}"]
+    Out.bind (showBoard f p) fun _ =>
+    Out.bind (lift (eng.dfpn attacker (dfpnEntries f.tableMem) p)) fun r =>
+    emit [.dfpnResult p attacker r.1 r.2]
 
 /-- `c.buildAnalysis(p)` -/
 def buildAnalysis {E : Type} (eng : Engines E) (f : Flags) (p : Pos) : Out (Analyzer E) :=
   if f.mcts && f.prove then stop (.fatal "-mcts and -prove are incompatible!")
-  else if f.dfpn then ([], .ok .dfpn)
-  else if f.prove then ([], .ok .pn)
-  else if f.mcts then ([], .ok .mcts)
-  else ([], .ok (.minimax (eng.newMinimax p.size (minimaxCfg f))))
+  else if f.dfpn then done .dfpn
+  else if f.prove then done .pn
+  else if f.mcts then done .mcts
+  else done (.minimax (eng.newMinimax p.size (minimaxCfg f)))
 
 /-- `c.analyzeWith(analysis, p)` (the context only carries the time limit) -/
 def analyzeWith {E : Type} (env : PTN.Env) (eng : Engines E) (f : Flags) (a : Analyzer E) (p : Pos) : Out (Analyzer E) :=
   match a with
-  | .dfpn => Out.bind (dfpnAnalyze env eng f p) fun _ => ([], .ok .dfpn)
-  | .pn => Out.bind (pnAnalyze env eng f p) fun _ => ([], .ok .pn)
+  | .dfpn => Out.bind (dfpnAnalyze eng f p) fun _ => done .dfpn
+  | .pn => Out.bind (pnAnalyze eng f p) fun _ => done .pn
   | .mcts => stop (.unmodelled "-mcts")
-  | .minimax ai => Out.bind (minimaxAnalyze env eng f ai p) fun ai => ([], .ok (.minimax ai))
+  | .minimax ai => Out.bind (minimaxAnalyze env eng f ai p) fun ai => done (.minimax ai)
 
 /-! ### `Execute` -/
 
@@ -279,18 +320,18 @@ def allLoop {E : Type} (env : PTN.Env) (eng : Engines E) (f : Flags) (color : Co
   | fuel+1, it, w, b =>
     match it.next env with
     | .error e => stop (Stop.ofErr e)
-    | .ok (it, false) => ([], .ok it)
+    | .ok (it, false) => done it
     | .ok (it, true) =>
       match it.position with
       | none => stop (.panic "Execute: nil position")
       | some p =>
-        if p.gameOver.1 then ([], .ok it) else
+        if p.gameOver.1 then done it else
         let num := p.move.tdiv 2 + 1
         if p.toMove == .white && color != .black then
-          Out.bind (emit [s!"{num}. {fmtMoveS env it.move}"]) fun _ =>
+          Out.bind (emit [.plyLabel num false it.move]) fun _ =>
           Out.bind (analyzeWith env eng f w p) fun w => allLoop env eng f color fuel it w b
         else if p.toMove == .black && color != .white then
-          Out.bind (emit [s!"{num}. ... {fmtMoveS env it.move}"]) fun _ =>
+          Out.bind (emit [.plyLabel num true it.move]) fun _ =>
           Out.bind (analyzeWith env eng f b p) fun b => allLoop env eng f color fuel it w b
         else allLoop env eng f color fuel it w b
 
@@ -307,7 +348,7 @@ def execute {E : Type} (env : PTN.Env) (eng : Engines E) (f : Flags) (input : By
         | .error e => stop (Stop.ofErr e)
         | .ok p =>
           Out.bind (buildAnalysis eng f p) fun a =>
-          Out.bind (analyzeWith env eng f a p) fun _ => ([], .ok ())
+          Out.bind (analyzeWith env eng f a p) fun _ => done ()
       else
         match PTN.initialPosition env parsed with
         | .error e => stop (Stop.ofErr e)
@@ -320,6 +361,6 @@ def execute {E : Type} (env : PTN.Env) (eng : Engines E) (f : Flags) (input : By
             Out.bind (allLoop env eng f color (parsed.ops.length + 2) it w b) fun it =>
             match it.err with
             | some e => stop (Stop.ofErr e)
-            | none => ([], .ok ())
+            | none => done ()
 
 end Tak.CmdAnalyze
